@@ -838,6 +838,48 @@ pub fn c09_case(c: &mut Ctx, r: &mut Rng, fam: Fam, rp: &RP, case: &Case) {
             }
         }
     }
+    // a retransmission right after the original: the same PUBLISH value with DUP set and (v5) a lowered
+    // Message Expiry Interval / a toggled Topic Alias, sharing the original's payload and topic handles —
+    // whatever an encoder remembers from the previous call (thread-locals, caches keyed by buffer
+    // identity) must not leak into this one
+    {
+        let resend: Option<Pkt> = match &lib {
+            Pkt::V3(v3::Packet::Publish(p)) if p.qos_pid != mqtt_proto::QosPid::Level0 => {
+                let mut q = p.clone();
+                q.dup = true;
+                Some(Pkt::V3(v3::Packet::Publish(q)))
+            }
+            Pkt::V5(v5::Packet::Publish(p)) if p.qos_pid != mqtt_proto::QosPid::Level0 => {
+                let mut q = p.clone();
+                q.dup = true;
+                q.properties.message_expiry_interval = Some(q.properties.message_expiry_interval.map(|x| x / 2 + 1).unwrap_or(77));
+                q.properties.topic_alias = if q.properties.topic_alias.is_some() { None } else { Some(9) };
+                Some(Pkt::V5(v5::Packet::Publish(q)))
+            }
+            _ => None,
+        };
+        if let Some(b) = resend {
+            c.count("async.retransmissions");
+            let mut w0 = ScriptedWriter::new(&[]);
+            let _ = guard(|| enc_async(&lib, &mut w0, enc.len() * 2 + 16));
+            if let Ok(Ok(want)) = guard(|| b.encode()) {
+                let mut w = ScriptedWriter::new(&[]);
+                match guard(|| enc_async(&b, &mut w, want.len() * 2 + 16)) {
+                    Ok(Ok(Ok(()))) if w.got == want => {}
+                    other => c.violation(
+                        format!("C09:v{}:{}:async:retransmission", f, t),
+                        format!(
+                            "encode_async of a retransmission (DUP set, properties changed) right after the original: sink got {} bytes, encode() gives {} ({:?})",
+                            w.got.len(),
+                            want.len(),
+                            other.map(|r| r.map(|x| x.is_ok()))
+                        ),
+                        case.clone().p("retransmission", 1),
+                    ),
+                }
+            }
+        }
+    }
     // packet = header ++ streamed body, for sinks accepting 1, k, all bytes per write
     if let Split::Frame { hdr, .. } = split_frame(&enc) {
         for k in [1usize, 3, usize::MAX] {
